@@ -32,6 +32,30 @@ CLAIMED = {
         'spelling function (harness/parsecheck.py spell) and the abstraction '
         'of code tokens to spec tokens (c01_random.abstract_tok).',
         'DESIGN.md 4/C01'),
+    'C03': (
+        'TLC model checking of Workbook.tla (history-free meaning Sem vs Calc: '
+        'every schedule of firings of every generated workbook) + replay of '
+        'each workbook through both load paths, orders, spellings and hash '
+        'seeds + TLC trace validation (CalcTrace.tla) of the recorded '
+        'calculation',
+        'For seeded random acyclic workbooks (constants of every kind, '
+        'single-cell, range, cross-sheet, cross-book, defined-name and '
+        'array-formula references, unpopulated cells) TLC explores every '
+        'schedule of firings and checks that every partial valuation agrees '
+        'with the history-free meaning, that quiescence is total and that '
+        'overridden cells never fire; it writes Sem(W). Each workbook is '
+        'built from a dictionary and from .xlsx files (all books loaded, or '
+        'only the first / last so the other is pulled in on demand) under '
+        'shuffled cell/sheet/book orders, varied spellings and two (quick) / '
+        'six (thorough) PYTHONHASHSEED values in separate processes; every '
+        'cell must equal Sem. The sequence of values the cell nodes receive '
+        '(hook H4) is validated step by step by CalcTrace.tla: a formula '
+        'fires only after its inputs, with exactly its formula\'s value.',
+        'Trusted: TLC; the generator\'s geometry resolution (ranges as id '
+        'matrices) and spelling; the small function set of Workbook.tla '
+        '(SUM, COUNT, MAX, IF, IFERROR, ISERROR). Whole-column references are '
+        'not generated here.',
+        'DESIGN.md 4/C03'),
     'C05': (
         'TLC model checking of XlArray.tla (lifting under broadcasting, '
         'fitting, arity independence over all shape combinations <= 3x3) + '
